@@ -39,6 +39,9 @@ func load() {
 	}
 }
 
+// SetModel installs a model directly (in-process replay).
+func SetModel(vars map[string]uint64) { mdl = &model{Vars: vars} }
+
 // Reset restarts variable numbering (one harness invocation = one path).
 func Reset() { seq = map[string]int{}; Covers = map[string]bool{} }
 
